@@ -50,6 +50,7 @@ class PCA(Transformer):
         feature_name: str = "feature",
         random_state: np.random.Generator | int | None = None,
         solver_kwargs: dict = {},
+        solver: str = "auto",
     ):
         super().__init__(sample_name, feature_name)
 
@@ -59,6 +60,7 @@ class PCA(Transformer):
         self.compute_eagerly = compute_eagerly
         self.random_state = random_state
         self.solver_kwargs = solver_kwargs
+        self.solver = solver
 
         # Check whether Whitener is identity transformation
         self.is_identity = not use_pca
@@ -110,6 +112,7 @@ class PCA(Transformer):
                 random_state=self.random_state,
                 sample_name=self.sample_name,
                 feature_name=self.feature_name,
+                solver=self.solver,
                 solver_kwargs=self.solver_kwargs,
             )
             _, _, self.V = svd.fit_transform(X)
